@@ -257,13 +257,17 @@ func CheckStreams(w *world.World, o StreamOpts) []world.Violation {
 			}
 			sig := "corrupt"
 			for k := range exp {
-				if k != j && bytes.Equal(exp[k], r) {
-					if k > j && o.LocalIdx != nil && o.LocalIdx(ci, k) {
-						sig = "local-overtake:" + kind(k)
-					} else {
-						sig = "forwarded-swap"
-					}
+				if k > j && bytes.Equal(exp[k], r) && o.LocalIdx != nil && o.LocalIdx(ci, k) {
+					sig = "local-overtake:" + kind(k)
 					break
+				}
+			}
+			if sig == "corrupt" {
+				for k := range exp {
+					if k != j && bytes.Equal(exp[k], r) {
+						sig = "forwarded-swap"
+						break
+					}
 				}
 			}
 			vs = append(vs, world.Violation{Sig: sig, Msg: fmt.Sprintf("client %d: reply %d is %q, reference %q (request %q)", ci, j, r, exp[j], reqAt(c, j))})
